@@ -179,6 +179,8 @@ def observe(inst, mg):
     for idx, (r, k) in atom_res.items():
         a = lm.GetAtomWithIdx(idx)
         a.SetAtomMapNum(inst.labels[o.blocks[r][0]] * 100 + k + 1)
+        if R.token_ref(o.blocks[r][0]).bracket[k]:
+            R.forget_bracket_hydrogens(a)
     # open descriptors become dummy atoms (same encoding as the model)
     for bd in mg.bond_descriptors:
         try:
@@ -209,6 +211,7 @@ def observe(inst, mg):
         for a in m2.GetAtoms():
             a.SetMonomerInfo(None)
         Chem.SanitizeMol(m2)
+        Chem.RemoveStereochemistry(m2)
         o.canon = Chem.MolToSmiles(m2)
     except Exception as e:  # noqa
         o.problems.append(("C05", "sanitize", f"labelled molecule does not sanitise: {e}"))
@@ -326,7 +329,7 @@ def oracle_c05(inst, o):
             exp_canon = R.canon_of(res, bonds, [], inst.labels)
             if exp_canon != o.canon:
                 out.append(("C05", "not-denoted-molecule", f"generated molecule {o.canon} is not the molecule its residues and bonds denote {exp_canon} (hydrogen count / valence / extra atoms)"))
-            elif o.smiles is not None and not o.open_descs and R.plain_smiles_of_labelled(exp_canon) != Chem.CanonSmiles(o.smiles):
+            elif o.smiles is not None and not o.open_descs and not any(any(R.token_ref(b[0]).bracket) for b in o.blocks) and R.plain_smiles_of_labelled(exp_canon) != R.canon_plain(o.smiles):
                 out.append(("C05", "smiles-accessor", f"MolGen.smiles {o.smiles} differs from the denoted molecule"))
         except R.RefError as e:
             out.append(("C05", "not-denoted-molecule", f"reference assembly fails: {e}"))
